@@ -14,6 +14,10 @@ import (
 
 var table = map[string]func(*fw.Ctx){
 	"C01": checks.C01,
+	"C04": checks.C04,
+	"C05": checks.C05,
+	"C07": checks.C07,
+	"C17": checks.C17,
 }
 
 func main() {
